@@ -198,6 +198,35 @@ def h_log(K, prefix):
     return fn
 
 
+FLAT_PATTERNS = [[(0, 100), (0, 50), (50, 150)], [(0, 100), (100, 200), (200, 300)], [(0, 50), (30, 80), (60, 120)], [(0, 100), (200, 300), (50, 80)], [(0, 40), (100, 140)], [(0, 100), (0, 100), (0, 100)]]
+def h_flatten():
+    """flatten on synthesised logs with two or three runs and overlapping / disjoint / restarted step ranges (concrete replays)"""
+    def fn():
+        import atomman.lammps as lmp
+        def mk(runs):
+            out = ['LAMMPS (29 Oct 2020)']
+            for k, (a, b) in enumerate(runs):
+                out.append(TRIG_MEM[k % 2] + ' 3.1 Mbytes'); out.append('Step Temp PotEng')
+                for st in range(a, b + 1, 10): out.append(f'{st} {k * 1000 + st}.5 {-3.0 - k}')
+                out.append('Loop time of 0.1 on 1 procs for 10 steps with 4 atoms'); out.append('')
+            return '\n'.join(out) + '\n'
+        ob = []
+        for runs in FLAT_PATTERNS:
+            log = lmp.Log(mk(runs))
+            for style in ('first', 'last', 'all'):
+                m = log.flatten(style).thermo
+                got = [(int(s_), float(t)) for s_, t in zip(m.Step, m.Temp)]
+                if style == 'all':
+                    want = [(st, k * 1000 + st + 0.5) for k, (a, b) in enumerate(runs) for st in range(a, b + 1, 10)]
+                    ob.append((f'flatten(all) keeps every row, runs {runs}', got == want)); continue
+                want = {}
+                for k, (a, b) in (list(enumerate(runs)) if style == 'first' else list(enumerate(runs))[::-1]):
+                    for st in range(a, b + 1, 10): want.setdefault(st, k * 1000 + st + 0.5)
+                ob.append((f'flatten({style}): every timestep once, from the {"earliest" if style == "first" else "latest"} run, runs {runs}', len(got) == len(set(g[0] for g in got)) and dict(got) == want))
+        return ob
+    return fn
+
+
 def prefixes(depth):
     """first-lines prefixes that can start a well-formed log (used to split the exploration over workers)"""
     out = []
@@ -222,4 +251,5 @@ def cases(tier, seed=0):
     for p in prefixes(3):
         cs.append(Case('log_K%d_' % K + '_'.join(KN[k] for k in p), h_log(K, p), bind=BIND, budget_s=150 if tier == 'quick' else 900, timeout_ms=10000, max_paths=100000,
                        descr=f'all well-formed logs of {K} lines starting with {[KN[k] for k in p]}'))
+    cs.append(Case('flatten_patterns', h_flatten(), concrete_only=True, budget_s=120, descr='flatten(first|last|all) on synthesised multi-run logs with overlapping, disjoint and restarted step ranges (concrete replays)'))
     return cs
